@@ -27,11 +27,20 @@
  * its events through a pipe; the parent prints
  *   O trace=<events> end=<normal|fatal|abort|hang|signal|other> depth=<len(current(Exception)) after, or - >
  * and checks the direct oracle (a reference interpreter of structured exceptions, written here independently of the
- * Lean model) plus: exit status is EXIT_FAILURE and stderr carries the "Uncaught" diagnostic for an escaping exception;
- * beyond EXCEPTION_MAX_DEPTH: abort with the overflow message and nothing of the body run. */
+ * Lean model) plus: exit status is EXIT_FAILURE and stderr carries the "Uncaught" diagnostic for an escaping exception.
+ * THE REFERENCE INTERPRETER HAS NO CAPACITY: every program whose try-nesting (number of blocks open at the same time,
+ * lexical or dynamic) stays within the property's nesting bound C07_NEST_BOUND = 2048 — a number fixed HERE, deliberately
+ * not the EXCEPTION_MAX_DEPTH of the source under test — must behave by block structure; a tree whose jump-buffer stack
+ * was shrunk (seeded change c07_j: 64) aborts such a program with "Exception Buffer Overflow" and the oracle reports
+ * exn-end / exn-trace on it. Nesting beyond the bound is outside the property's quantifier: there the oracle accepts the
+ * reference behaviour (a larger stack) or a clean overflow abort (the message on stderr, SIGABRT, and the events so far a
+ * prefix of the reference trace) and reports anything else (a crash, a wrong trace) as exn-overflow. */
 #include "common.h"
 #include <errno.h>
 #include <sys/resource.h>
+
+/* the nesting bound of property C07 (Lean: Cello.Exn.nestBound): NOT taken from the source under test */
+#define C07_NEST_BOUND 2048
 
 enum { STMT, THROW, THROWNULL, THROWBAD, RETHROW, SEQ, TRY, CALL, DEEP, LIBRAISE };
 #define MAXFILT 4
@@ -202,16 +211,14 @@ static void run_lexical(int a, int b, int c, int f1, int f2, int f3) {
 }
 
 /* ---- direct oracle: reference interpreter (structured exceptions), independent of the Lean model ----
-   Exceptions are kinds 0…NKINDS-1; a filter matches an exception iff it is empty or lists it (any number of times).
-   Besides the reference outcome it records where the nesting would exceed EXCEPTION_MAX_DEPTH. */
-static char obuf[1 << 16]; static size_t olen;
-static long o_over_at;   /* trace length at the first such point, -1 = never */
-static int o_stop;
+   Exceptions are object indices; a filter matches an exception iff it is empty or lists it (any number of times).
+   The interpreter has NO capacity: it only records the largest number of try blocks that were open at the same time. */
+static char obuf[1 << 18]; static size_t olen;
+static size_t o_maxnest; /* largest number of simultaneously open try blocks on the reference run */
 static int o_clash;      /* a filter walk of the reference run reached an entry that cannot be compared with the exception */
 static char o_msg[1024]; /* the message of the last throw the reference run executed = what the record must hold at the end */
-static void oemit(char c, int n) { if (!o_stop) olen += snprintf(obuf + olen, sizeof obuf - olen, "%c%d,", c, n); }
+static void oemit(char c, int n) { if (olen + 32 < sizeof obuf) olen += snprintf(obuf + olen, sizeof obuf - olen, "%c%d,", c, n); }
 static int oeval(Node* n, int x, size_t depth) { /* returns -1 = completed, else the escaping object's index */
-  if (o_stop) return -1;
   switch (n->kind) {
     case STMT: oemit('s', n->n); return -1;
     case THROW: expected_msg(n->n, o_msg, sizeof o_msg); return canon(n->n);
@@ -221,11 +228,11 @@ static int oeval(Node* n, int x, size_t depth) { /* returns -1 = completed, else
       snprintf(o_msg, sizeof o_msg, "Object 42 not in Array!"); return 1;
     case THROWNULL: return -1;  /* not judged: see out_of_domain() */
     case RETHROW: snprintf(o_msg, sizeof o_msg, "re"); return x;
-    case SEQ: { int r = oeval(n->a, x, depth); if (r >= 0 || o_stop) return r; return oeval(n->b, x, depth); }
+    case SEQ: { int r = oeval(n->a, x, depth); if (r >= 0) return r; return oeval(n->b, x, depth); }
     case CALL: case DEEP: return oeval(n->a, x, depth);
     case TRY: {
-      if (depth >= EXCEPTION_MAX_DEPTH) { if (o_over_at < 0) o_over_at = (long)olen; o_stop = 1; return -1; }
-      int r = oeval(n->a, x, depth + 1); if (r < 0 || o_stop) return -1;
+      if (depth + 1 > o_maxnest) o_maxnest = depth + 1;
+      int r = oeval(n->a, x, depth + 1); if (r < 0) return -1;
       int m = n->nfilt == 0;
       for (int i = 0; i < n->nfilt && !m; i++) {
         int a = canon(n->filt[i]);
@@ -237,6 +244,11 @@ static int oeval(Node* n, int x, size_t depth) { /* returns -1 = completed, else
     }
   }
   return -1;
+}
+/* `got` is `want` cut at an event boundary */
+static int is_event_prefix(const char* got, const char* want) {
+  size_t l = strlen(got);
+  return strncmp(got, want, l) == 0 && (want[l] == 0 || want[l] == ',' || l == 0);
 }
 static int out_of_domain(Node* n) {
   if (!n) return 0;
@@ -272,8 +284,9 @@ int main(int argc, char** argv) {
   v_init();
   if (argc < 2) { fprintf(stderr, "usage: h_exn <opfile>\n"); return 2; }
   size_t n; char** lines = v_read_lines(argv[1], &n);
-  size_t nprog = 0, n_ood = 0, n_dup = 0, n_over = 0, n_clash = 0;
-  /* room for EXCEPTION_MAX_DEPTH recursive activations of the interpreter under ASan (the main thread's stack grows on demand) */
+  size_t nprog = 0, n_ood = 0, n_dup = 0, n_over = 0, n_clash = 0, n_deep = 0, max_nest = 0;
+  /* room for C07_NEST_BOUND (and a few more) recursive activations of the interpreter — run() + run_tryN() with its jmp_buf,
+     plus the callee frames of (f …) / (d N …) at every level — under ASan (the main thread's stack grows on demand) */
   { struct rlimit rl; if (getrlimit(RLIMIT_STACK, &rl) == 0) { rlim_t want = (rlim_t)256 << 20;
       if (rl.rlim_max != RLIM_INFINITY && want > rl.rlim_max) want = rl.rlim_max;
       if (rl.rlim_cur == RLIM_INFINITY || rl.rlim_cur < want) { rl.rlim_cur = want; setrlimit(RLIMIT_STACK, &rl); } } }
@@ -316,7 +329,7 @@ int main(int argc, char** argv) {
       _exit(0);
     }
     close(ev[1]); close(er[1]);
-    static char tbuf[1 << 16]; size_t tl = 0; ssize_t r;
+    static char tbuf[1 << 18]; size_t tl = 0; ssize_t r;
     while ((r = read(ev[0], tbuf + tl, sizeof tbuf - 1 - tl)) > 0) tl += r;
     tbuf[tl] = 0; close(ev[0]);
     static char ebuf[1 << 14]; size_t el = 0;
@@ -339,17 +352,22 @@ int main(int argc, char** argv) {
          (correspondence), refuted in Lean (C07_throw_null_refuted, C07_bad_message_refuted), not judged here */
       n_ood++; continue;
     }
-    olen = 0; obuf[0] = 0; o_over_at = -1; o_stop = 0; o_clash = 0; o_msg[0] = 0; o_plain_msgs = is_lex;
+    olen = 0; obuf[0] = 0; o_maxnest = 0; o_clash = 0; o_msg[0] = 0; o_plain_msgs = is_lex;
     int esc = oeval(prog, 0, 0);
-    if (o_over_at >= 0) {
-      /* the nesting does not fit: exception_try must abort at that block, nothing after the events so far */
+    if (o_maxnest > max_nest) max_nest = o_maxnest;
+    if (o_maxnest >= 65) n_deep++;
+    static char full[1 << 18]; memcpy(full, obuf, olen + 1); strip_comma(full);
+    if (o_maxnest > C07_NEST_BOUND) {
+      /* nesting beyond the property's bound: not judged by block structure. Either the jump-buffer stack of the tree under
+         test is larger and the program behaves by the reference, or exception_try refuses a block cleanly: the overflow
+         message, abort(), nothing of that block run — the events so far are a prefix of the reference trace. */
       n_over++;
-      obuf[o_over_at] = 0; strip_comma(obuf);
-      if (strcmp(end, "abort") != 0 || strcmp(obuf, tbuf) != 0 || !strstr(ebuf, "Exception Buffer Overflow"))
-        X("sig=exn-overflow line=%zu what=nesting beyond EXCEPTION_MAX_DEPTH: want abort with the overflow message after [%s], got end=%s after [%s]", li + 1, obuf, end, tbuf);
+      int by_ref = strcmp(full, tbuf) == 0 && (esc < 0 ? strcmp(end, "normal") == 0 : strcmp(end, "fatal") == 0);
+      int clean = strcmp(end, "abort") == 0 && strstr(ebuf, "Exception Buffer Overflow") && is_event_prefix(tbuf, full);
+      if (!o_clash && !by_ref && !clean)
+        X("sig=exn-overflow line=%zu what=try-nesting %zu beyond the bound %d: want the reference behaviour or a clean abort with the overflow message after a prefix of [%.300s], got end=%s after [%.300s]", li + 1, o_maxnest, C07_NEST_BOUND, full, end, tbuf);
       continue;
     }
-    static char full[1 << 16]; memcpy(full, obuf, olen + 1); strip_comma(full);
     if (dupf) n_dup++;
     if (o_clash) {
       /* territory of KF-C07-filter-eq-raises: eq(entry, exception) raises inside exception_catch. Every departure from
@@ -368,7 +386,12 @@ int main(int argc, char** argv) {
         dupf ? " — a catch filter names one object twice: exception_catch must walk it to its end and match by membership" : "", tbuf, full, esc < 0 ? "normal" : "fatal");
       continue;
     }
-    if (strcmp(full, tbuf) != 0) X("sig=exn-trace line=%zu what=handlers/statements differ from block structure: got [%s] want [%s]", li + 1, tbuf, full);
+    if (strcmp(end, "abort") == 0 && strstr(ebuf, "Exception Buffer Overflow")) {
+      /* the capacity of the jump-buffer stack was reached by a program whose nesting is within the property's bound */
+      X("sig=exn-capacity line=%zu what=try-nesting %zu (within the bound %d) overflowed the jump-buffer stack: exception_try aborted with `Exception Buffer Overflow` after [%.300s]; block structure wants [%.300s] end=%s", li + 1, o_maxnest, C07_NEST_BOUND, tbuf, full, esc < 0 ? "normal" : "fatal");
+      continue;
+    }
+    if (strcmp(full, tbuf) != 0) X("sig=exn-trace line=%zu what=handlers/statements differ from block structure: got [%.2000s] want [%.2000s]", li + 1, tbuf, full);
     if (esc < 0 && strcmp(end, "normal") != 0) X("sig=exn-end line=%zu what=program without escaping exception ended %s", li + 1, end);
     if (esc >= 0 && strcmp(end, "fatal") != 0) X("sig=exn-end line=%zu what=uncaught exception did not terminate with failure status (ended %s)", li + 1, end);
     if (esc >= 0 && strcmp(end, "fatal") == 0) {
@@ -382,6 +405,6 @@ int main(int argc, char** argv) {
       if (!strstr(ebuf, want)) X("sig=exn-diag-msg line=%zu what=the diagnostic of the uncaught exception does not carry the message of the throw that raised it (want `%s`)", li + 1, o_msg);
     }
   }
-  I("programs=%zu out_of_domain=%zu dup_filter=%zu overflow=%zu clash=%zu", nprog, n_ood, n_dup, n_over, n_clash);
+  I("programs=%zu out_of_domain=%zu dup_filter=%zu beyond_bound=%zu clash=%zu nest65plus=%zu max_nest=%zu", nprog, n_ood, n_dup, n_over, n_clash, n_deep, max_nest);
   return 0;
 }
